@@ -8,6 +8,8 @@ stub_str()
 LAST_DIFF = None
 HLEN = PARAMS.get('hlen', 2)
 ABSENT = object()
+# declared attribute names: letter-initial, or beginning with an underscore (PARAMS names=underscore)
+A, I, R = ('_b', '_d', '_f') if PARAMS.get('names') == 'underscore' else ('Ab', 'Id', 'Rf')
 
 
 def sp(name, bits):
@@ -16,15 +18,15 @@ def sp(name, bits):
 
 def mk():
     m = xtuml.MetaModel(xtuml.IntegerGenerator())
-    m.define_class('Tt', [('Id', 'unique_id')])
-    m.define_class('Kl', [('Id', 'unique_id'), ('Ab', 'integer'), ('Rf', 'unique_id')])
-    ass = m.define_association(1, 'Kl', ['Rf'], True, True, '', 'Tt', ['Id'], False, True, '')
+    m.define_class('Tt', [(I, 'unique_id')])
+    m.define_class('Kl', [(I, 'unique_id'), (A, 'integer'), (R, 'unique_id')])
+    ass = m.define_association(1, 'Kl', [R], True, True, '', 'Tt', [I], False, True, '')
     ass.formalize()
-    m.define_unique_identifier('Kl', 1, 'Id')
+    m.define_unique_identifier('Kl', 1, I)
     return m
 
 
-NOPS = 7       # set Ab, set Id, del Ab, relate, unrelate, set Rf (rejected), del Id
+NOPS = 9       # set Ab, set Id, del Ab, relate, unrelate, set Rf (rejected), del Id, read Rf, set the REFERRED identifier
 NCODES = NOPS * 4
 
 
@@ -32,12 +34,12 @@ def apply_op(m, k, t, code, val, cell):
     """apply one operation to the real instance and to the model cell dict"""
     op, s = code // 4, code % 4
     if op == 0:
-        setattr(k, sp('ab', s), val); cell['Ab'] = val
+        setattr(k, sp(A, s), val); cell['Ab'] = val
     elif op == 1:
-        setattr(k, sp('id', s), val); cell['Id'] = val
+        setattr(k, sp(I, s), val); cell['Id'] = val
     elif op == 2:
         try:
-            delattr(k, sp('ab', s))
+            delattr(k, sp(A, s))
             if cell['Ab'] is ABSENT:
                 return 'deleting an absent attribute did not raise'
         except (AttributeError, KeyError):
@@ -46,7 +48,7 @@ def apply_op(m, k, t, code, val, cell):
         cell['Ab'] = ABSENT
     elif op == 6:
         try:
-            delattr(k, sp('id', s))
+            delattr(k, sp(I, s))
             if cell['Id'] is ABSENT:
                 return 'deleting an absent attribute did not raise'
         except (AttributeError, KeyError):
@@ -63,9 +65,20 @@ def apply_op(m, k, t, code, val, cell):
             return 'skip'
         if cell['Rf']:
             xtuml.unrelate(k, t, 1); cell['Rf'] = False
+    elif op == 7:
+        got = read(k, sp(R, s))
+        if cell['Rf']:
+            if got is ABSENT or got is None or got != cell['tid']:
+                return 'referential read in the middle of the history'
+        elif got is not None:
+            return 'referential read when unlinked in the middle of the history'
+    elif op == 8:
+        if not (val > 0):
+            return 'skip'
+        setattr(t, sp(I, s), val); cell['tid'] = val
     elif op == 5:
         try:
-            setattr(k, sp('rf', s), val)
+            setattr(k, sp(R, s), val)
             return 'assignment to a referential attribute accepted'
         except xtuml.MetaException:
             pass
@@ -83,21 +96,22 @@ def observe_all(m, k, t, tid, cell):
     """read every attribute under every spelling; query by every spelling"""
     for bits in range(4):
         for attr in ('Ab', 'Id'):
-            got = read(k, sp(attr, bits))
+            got = read(k, sp({'Ab': A, 'Id': I}[attr], bits))
             exp = cell[attr]
             if exp is ABSENT:
                 if got is not ABSENT:
                     return ('read of deleted attribute', attr, bits)
             elif got is ABSENT or got != exp:
                 return ('read', attr, bits)
-        got = read(k, sp('rf', bits))
+        got = read(k, sp(R, bits))
+        tid = cell.get('tid', tid)
         if cell['Rf']:
             if got is ABSENT or got is None or got != tid:
                 return ('referential read', bits)
         elif got is not None:
             return ('referential read when unlinked', bits)
         if cell['Ab'] is not ABSENT:
-            sel = m.select_many('Kl', where_eq(**{sp('ab', bits): cell['Ab']}))
+            sel = m.select_many('Kl', where_eq(**{sp(A, bits): cell['Ab']}))
             if len(sel) != 1:
                 return ('where_eq', bits)
     return None
@@ -118,9 +132,11 @@ def check_hist(c1: int, c2: int, c3: int, v0: int, v1: int, v2: int, v3: int, ti
         m = mk()
         t = m.new('Tt')
         k = m.new('Kl')
-    t.Id = tid
-    k.Ab = v0
-    cell = {'Ab': v0, 'Id': k.Id, 'Rf': False}
+    setattr(t, I, tid)
+    setattr(k, A, v0)
+    cell = {'Ab': v0, 'Id': getattr(k, I), 'Rf': False, 'tid': tid}
+    if PARAMS.get('linked'):
+        xtuml.relate(k, t, 1); cell['Rf'] = True       # histories that start from a linked pair
     vals = [v1, v2, v3]
     for n, code in enumerate(codes):
         r = apply_op(m, k, t, code, vals[n], cell)
